@@ -317,6 +317,8 @@ def drive(sess, rnd, cfg, record):
                     ops.append(make_observe(g, m, cfg))
                 else:
                     ops.append(g.op_sys_phases(m))
+            elif prop in ("C06", "C04") and R.chance(0.12):
+                ops = g.ops_sleeper_overload(m)
             else:
                 e = g.op_comp_phases(m, clear=R.chance(0.15))
                 ops.append(e)
